@@ -2502,6 +2502,8 @@ func runC16(c *core.Ctx) {
 	}
 
 	lap("files")
+	c16Converted(c)
+	lap("converted row groups")
 	// ---- corpus histories
 	for k, spec := range typed {
 		if k >= c.N(5, 15) {
